@@ -105,6 +105,15 @@ def check( prop, tier='quick', root=None, write=True, quiet=False, evidence_dir=
         for fa in probes['false_alarms'][:10]:
             errors.append( 'probe (behaviour-preserving edit changed a verdict): ' + fa )
 
+    seeds = None
+    if tier == 'thorough' and not errors:
+        # replay of the kept seeded changes of this property ( confirmed property-breaking edits made by sub-agents, DESIGN 12 ), applied in
+        # memory: the rules of the seed's own property have to report each one that still applies to the tree under analysis
+        from . import seedreplay as sr
+        seeds = sr.run_for_property( prop, rule_ids, root=ctx.model.root )
+        for miss in seeds['misses']:
+            errors.append( 'seeded change not reported: ' + miss )
+
     evdir = evidence_dir or os.path.join( VERIF, 'evidence' )
     lines = []
     replay_paths = []
@@ -173,6 +182,8 @@ def check( prop, tier='quick', root=None, write=True, quiet=False, evidence_dir=
         cov['selftest']['misses'] = selftest['misses']
     if probes is not None:
         cov['robustness_probes'] = probes
+    if seeds is not None:
+        cov['seeded_changes'] = seeds
     ev = dict( property_id=prop, tier=tier, seed=int( os.environ.get( 'VERIF_SEED', '0' ) or 0 ), level='other',
                coverage=cov, wall_s=round( wall, 3 ), violations=len( findings ),
                assumptions=spec.get( 'assumptions', [] ) + [
